@@ -50,8 +50,14 @@ pub async fn on_document_selection_range_handle(
 
         for ancestor in token.parent_ancestors() {
             let range = ancestor.text_range();
-            ranges.push(range);
+            // a node that spans exactly what its child spans adds no selection step
+            if ranges.last() != Some(&range) {
+                ranges.push(range);
+            }
         }
+
+        // equal neighbours (a description item that is the whole token, ...) are one selection step
+        ranges.dedup();
 
         let mut parent: Option<Box<SelectionRange>> = None;
         for range in ranges.into_iter().rev() {
